@@ -134,3 +134,14 @@ add("C19",
     "implementedBy(D) for D after C in type(ob).__mro__.",
     "stated_not_proved: C19_super / C19_stable as invariants over all World histories.",
     "Lean 4 proof (MRO-remainder lemma, cache hit) + differential correspondence of the integrated model + MRO-remainder oracle on the real objects", "6/C19")
+add("C16",
+    "Theorems about the bookkeeping the statement spells out: C16_unregisterUtility (False and no event without an entry or with a component that is not == the "
+    "registered one; otherwise True, exactly one Unregistered, the entry gone from the listing), C16_registerUtility_events (a first registration emits Registered, the "
+    "very same (component, info) again is a no-op without events, a replacement emits Unregistered then Registered), C16_adapters, C16_subscriptions (one event per "
+    "call that changed something, unregister returns whether anything was removed, listings updated accordingly), C16_pinned_violates (kernel-checked: the pinned "
+    "unregisterUtility raised TypeError half-way for an unhashable component equal to the registered hashable one). The full Components model (counter cache with its "
+    "switch to the non-hashing counter, both registries, probe) is compared with both twins after every call, and return values, events, the four listings, utility / "
+    "adapter / subscription queries and the probe are judged against listings kept by the harness.",
+    "stated_not_proved: C16_queries / C16_counts / C16_probe (registries = registries populated from the listings) as invariants over all histories. "
+    "Events of the six non-utility methods follow interfaces.py ('an event is generated' per call). Known finding utilities-mixed-hashability-double-subscription.",
+    "Lean 4 proof (return values / events / listing updates of the eight methods) + differential correspondence + listing oracle", "6/C16")
